@@ -19,31 +19,41 @@ def check_impl(fn, args, out):
 
 
 def rare_inputs(rng, want, budget):
-    """directed search (real cipher) for inputs whose final block has < 3 decimal nibbles"""
+    """directed search (real cipher, reused ECB contexts) for inputs whose final block has < 3 decimal
+    nibbles, i.e. that reach the second decimalisation pass (about 1 in 12000)"""
+    from cryptography.hazmat.primitives.ciphers import Cipher, algorithms, modes
     found = []
-    for _ in range(budget):
+    tried = 0
+    while tried < budget and len(found) < want:
         cvk = rng.randbytes(16)
-        pan = "".join(rng.choice("0123456789") for _ in range(16))
-        e = "%02d%02d" % (rng.randrange(20, 40), rng.randrange(1, 13))
-        s = "%03d" % rng.randrange(1000)
-        ds = [int(c) for c in pan + e + s] + [0] * 9
-        r = o.E("des", cvk, o.xor(o.E("des", cvk[:8], o.from_nibbles(ds[:16])), o.from_nibbles(ds[16:])))
-        if sum(1 for x in o.nibbles(r) if x < 10) < 3:
-            found.append((cvk, pan, e, s))
-            if len(found) >= want:
-                break
+        e1 = Cipher(algorithms.TripleDES(cvk[:8]), modes.ECB()).encryptor()
+        e2 = Cipher(algorithms.TripleDES(cvk), modes.ECB()).encryptor()
+        for _ in range(4000):
+            tried += 1
+            pl = rng.choice((16, 16, 16, 13, 19, 15, 12))
+            pan = "%0*d" % (pl, rng.randrange(10 ** pl))
+            e = "%04d" % rng.randrange(10000)
+            s = "%03d" % rng.randrange(1000)
+            ds = [int(c) for c in pan + e + s]
+            ds += [0] * (32 - len(ds))
+            r = e2.update(o.xor(e1.update(o.from_nibbles(ds[:16])), o.from_nibbles(ds[16:])))
+            if sum(1 for x in o.nibbles(r) if x < 10) < 3:
+                found.append((cvk, pan, e, s))
+                if len(found) >= want:
+                    break
     return found
 
 
 def run(ctx):
     rng = ctx.rng
     cases = [("generate_cvv", LEGACY_WITNESS)]
+    from harness import gens
     for _ in range(ctx.n(400, 4000)):
         pl = rng.choice(list(range(0, 20)))
-        cases.append(("generate_cvv", (rng.randbytes(16), "".join(rng.choice("0123456789") for _ in range(pl)),
-                                        "".join(rng.choice("0123456789") for _ in range(4)),
-                                        "".join(rng.choice("0123456789") for _ in range(3)))))
-    rare = rare_inputs(rng, ctx.n(3, 40), ctx.n(60000, 600000))
+        cases.append(("generate_cvv", (gens.key(rng, 16), gens.digits(rng, pl), gens.digits(rng, 4), gens.digits(rng, 3))))
+    # neighbours: same key / PAN with one field changed, base repeated (history dependence)
+    cases = fw.with_history(rng, cases, gens.variants_generic(rng), fraction=0.15, limit=80)
+    rare = rare_inputs(rng, ctx.n(40, 400), ctx.n(1200000, 12000000))
     cases += [("generate_cvv", r) for r in rare]
     # domain edges
     for cvkl in (0, 8, 15, 17, 24):
